@@ -310,6 +310,7 @@ func (c18) Eval(c *Chooser, env *Env) *Outcome {
 	if env.KeepTrace {
 		o.Traces = append(o.Traces, res.K.Trace)
 	}
+	o.Digest = DigestOf(res.Errs, res.Fatal)
 	if v := runFailure("C18", res.K); v != nil {
 		o.V = v
 		return o
